@@ -9,6 +9,9 @@ pub mod chain;
 pub mod c19;
 pub mod c20;
 pub mod c18;
+pub mod sectors;
+pub mod power_ds;
+pub mod sectors_actor;
 
 #[derive(Clone, Debug)]
 pub struct RunCfg {
